@@ -180,6 +180,9 @@ impl Substance {
                                     .expect("Already known safe")
                                     .to_parts(context);
                                 res.quantity = value.quantity;
+                                // The target's constant is part of the unit shown.
+                                res.factor = output_show.factor;
+                                res.divfactor = output_show.divfactor;
                                 res
                             } else {
                                 output_show
@@ -236,6 +239,9 @@ impl Substance {
                             .expect("Already known safe")
                             .to_parts(context);
                         res.quantity = value.quantity;
+                        // The target's constant is part of the unit shown.
+                        res.factor = output_show.factor;
+                        res.divfactor = output_show.divfactor;
                         res
                     } else {
                         output_show
